@@ -998,7 +998,8 @@ func c06RunScenario(t *testing.T, rec *vRecorder, stream string, sc c06Scenario,
 		}
 		// a one-shot pull between two LIVE copies of a document must leave a live document on the pulling side
 		var liveBefore []bool
-		if s.Kind == "pull" || s.Kind == "pullr" {
+		// (a resolver that answers null ASKS for a delete)
+		if s.Kind == "pull" || (s.Kind == "pullr" && s.RS.Kind != "nil") {
 			for _, d := range e.docs {
 				x, y := e.observe(0, d), e.observe(1, d)
 				liveBefore = append(liveBefore, x.Exists && !x.Deleted && y.Exists && !y.Deleted)
